@@ -185,7 +185,7 @@ func VPCheckEncode(rs *ReedSolomonEncoder, pp int) {
 	if d0 > want {
 		want = d0
 	}
-	vpAssert(len(rs.polynomes) == want+1, "generator cache holds degrees 0..max requested")
+	vpAssert(len(rs.polynomes) >= want+1, "generator cache holds at least the degrees 0..max requested")
 	for d := 0; d < len(rs.polynomes); d++ {
 		p := rs.polynomes[d]
 		vpAssert(len(p.Coefficients) == d+1 && p.Coefficients[0] == 1, "cached generator polynomial d is monic of degree d")
